@@ -54,6 +54,9 @@ CHECKS = {
  'C16': dict(level='exploration', technique='differential runtime monitor: embedded vs post transformation with generated pure transformers; four traversal classes compared on copies of the same tree with call-log checker (once per node, children first)',
              text='For generated LALR grammars with every shaping feature a pure transformer is generated per grammar (callbacks on random rules, aliases, template names and named terminals; plain, v_args(inline) and v_args(tree) styles); the embedded result must equal the post-transform result for every accepted input, and Transformer, Transformer_NonRecursive, Transformer_InPlace and Transformer_InPlaceRecursive must return equal results with exactly one logged call per node and no callback seeing an untransformed child.',
              note='__default__/__default_token__ untouched, no Discard, no meta (the statement\'s exceptions). Embedded in-place transformers are a separate class (finding F-C16-1).', ref='4 C16'),
+ 'C17': dict(level='exploration', technique='differential runtime monitor: a flat grammar vs its generated split into modules with %import / %override / %extend / templates, same lark, compared on language and tree sets modulo documented prefixes',
+             text='Each generated flat grammar is split into main + one or two module files (single, multi and renaming imports; relative and import_paths resolution; transitive dependencies; local definitions named like non-imported module definitions; %ignore inside modules; overrides of imported rules, of namespaced dependencies and of terminals; extends of rules and terminals; templates defined in a module). The modular grammar must construct whenever the flat one does, accept the same inputs and return the same set of trees under ambiguity=explicit (same tree under LALR) after stripping module prefixes and undoing renames.',
+             note='The flat side is interpreted by lark itself (judged by C03). Terminals that coincide with a literal are not overridden/extended (binding of literals precedes the directive and has no textual equivalent).', ref='4 C17'),
  'C18': dict(level='exploration', technique="runtime monitor: INDENT/DEDENT event trace of the real post-lexer vs CPython's tokenize on the same text, vs a stack model on synthetic token streams; balance contract; stream-sequence (reuse) oracle",
              text="Generated python-like texts (mixed spaces/tabs, blank/comment lines, bracketed continuation lines, multi-level and non-matching dedents) are lexed with lark's python grammar + PythonIndenter and the INDENT/DEDENT/logical-line event sequence (and DedentError) must equal CPython's tokenizer's; synthetic token streams with own bracket types and tab_len 1-8 are compared with a stack model written from the statement; INDENT/DEDENT must balance at the end of every complete stream; after failed or abandoned streams the same Indenter object must behave like a fresh one.",
              note='Leading tabs are rewritten to tab_len spaces before CPython sees the text. Two separate input classes carry finding F-C18-1.', ref='4 C18'),
